@@ -130,6 +130,11 @@ STMTS = [  # (text, expected term of the statement list) ; dangling else must bi
     ("{ RdV = siV - (int32_t)-5; }", '(SCons (SExpr (EAssign AAssign (EOp (OReg "R" "d")) (EBin BSub (EOp (OImm "s")) (ECast [(TS_intN true 32)] (EUn UMinus (EOp (ONum (5) false ""))))))) SNil)'),
     ("{ RdV = RtV + (int32_t)+RsV; }", '(SCons (SExpr (EAssign AAssign (EOp (OReg "R" "d")) (EBin BAdd (EOp (OReg "R" "t")) (ECast [(TS_intN true 32)] (EUn UPlus (EOp (OReg "R" "s"))))))) SNil)'),
     ("{ RdV = RtV + (int32_t)-RsV; }", '(SCons (SExpr (EAssign AAssign (EOp (OReg "R" "d")) (EBin BAdd (EOp (OReg "R" "t")) (ECast [(TS_intN true 32)] (EUn UMinus (EOp (OReg "R" "s"))))))) SNil)'),
+    ("{ RdV = (int32_t) -RsV; }", '(SCons (SExpr (EAssign AAssign (EOp (OReg "R" "d")) (ECast [(TS_intN true 32)] (EUn UMinus (EOp (OReg "R" "s")))))) SNil)'),
+    ("{ RdV = (int32_t)-5; }", '(SCons (SExpr (EAssign AAssign (EOp (OReg "R" "d")) (ECast [(TS_intN true 32)] (EUn UMinus (EOp (ONum (5) false "")))))) SNil)'),
+    ("{ RdV = RtV * (int64_t)-RsV; }", '(SCons (SExpr (EAssign AAssign (EOp (OReg "R" "d")) (EBin BMul (EOp (OReg "R" "t")) (ECast [(TS_intN true 64)] (EUn UMinus (EOp (OReg "R" "s"))))))) SNil)'),
+    ("{ RdV = RtV & (int64_t)-RsV; }", '(SCons (SExpr (EAssign AAssign (EOp (OReg "R" "d")) (EBin BAnd (EOp (OReg "R" "t")) (ECast [(TS_intN true 64)] (EUn UMinus (EOp (OReg "R" "s"))))))) SNil)'),
+    ("{ RdV = RtV + (int32_t)~RsV; }", '(SCons (SExpr (EAssign AAssign (EOp (OReg "R" "d")) (EBin BAdd (EOp (OReg "R" "t")) (ECast [(TS_intN true 32)] (EUn UNot (EOp (OReg "R" "s"))))))) SNil)'),
     ("{ RdV = a++ & RtV; }", '(SCons (SExpr (EAssign AAssign (EOp (OReg "R" "d")) (EBin BAnd (EPost true (EOp (OIdent "a"))) (EOp (OReg "R" "t"))))) SNil)'),
     ("{ RdV = a++ - RtV; }", '(SCons (SExpr (EAssign AAssign (EOp (OReg "R" "d")) (EBin BSub (EPost true (EOp (OIdent "a"))) (EOp (OReg "R" "t"))))) SNil)'),
     ("{ { RdV = 1; { ReV = 2; } } }", '(SCons (SBlock (SCons (SExpr (EAssign AAssign (EOp (OReg "R" "d")) (EOp (ONum (1) false "")))) (SCons (SExpr (EAssign AAssign (EOp (OReg "R" "e")) (EOp (ONum (2) false "")))) SNil))) SNil)'),
